@@ -150,7 +150,7 @@ fn parse_overlay(src: &str, fname: &str) -> (String, Vec<Dir>) {
                             "table" => {
                                 cur = Some(Section { kind, ord: 0, snippet, arg: String::new(), text: String::new(), line: i + 2 });
                             }
-                            "sig" | "entry" | "exit" | "fields" | "attr" => {
+                            "sig" | "entry" | "exit" | "fields" | "attr" | "impl-begin" => {
                                 cur = Some(Section { kind, ord: 0, snippet, arg: String::new(), text: String::new(), line: i + 2 });
                             }
                             "before" | "after" | "inv" | "body-begin" | "body-end" | "closure" | "iter" => {
@@ -689,7 +689,7 @@ impl<'a, 'ast> Visit<'ast> for FnScan<'a> {
                 }
                 return;
             }
-            let text = format!("{}({})", f, all.join(", "));
+            let text = if f.contains("$recv") { f.replace("$recv", &recv).replace("$args", &args.join(", ")) } else { format!("{}({})", f, all.join(", ")) };
             self.push_edit(s, e, text, "R3:method-to-fn", all);
             return;
         }
@@ -1208,6 +1208,12 @@ fn main() {
                                 let open = im.brace_token.span.open().byte_range().start;
                                 em.push(&sf.text[kw..open + 1], &format!("S:{}", sf.rel), sf.line_of(kw));
                                 em.push("\n", "G", 0);
+                                // overlay text placed at the start of the impl block (e.g. spec functions a trait impl must provide)
+                                for sec in fd.sections.iter().filter(|s| s.kind == "impl-begin") {
+                                    em.push("/*@+*/", "G", 0);
+                                    em.push(&sec.text, &format!("O:{}", overlay_name), sec.line);
+                                    em.push("/*@-*/\n", "G", 0);
+                                }
                                 // associated types / consts of the impl block come along verbatim
                                 for ii in im.items.iter() {
                                     if let syn::ImplItem::Type(_) | syn::ImplItem::Const(_) = ii {
